@@ -886,6 +886,15 @@ class DirectorHandler:
         -----
         This is an RPC wrapper for `Workflow.define_step`.
         """
+        # `step()` only validates the quantities, and a request need not come from `step()`.
+        # Without this check, the CHECK constraints of the step_resource table
+        # turn a plan author's mistake into an IntegrityError, i.e. an internal error.
+        for name, units in resources.items():
+            if name == "" or units <= 0:
+                raise GraphError(
+                    f"Invalid resource requirement ({name!r}: {units}). "
+                    "A resource needs a non-empty name and a strictly positive number of units."
+                )
         async with self.db:
             creator = self.scheduler.get_job_step(job_i)
             to_check = self.workflow.define_step(
